@@ -1,5 +1,6 @@
 import FV.Drv.Common
 import FV.Model.Glb
+import FV.Model.GlbOpt
 /- op table for the global-floorplanning bookkeeping model (property C10). -/
 namespace FV.Drv
 open FV FV.Glb
@@ -78,8 +79,49 @@ def loopReplay (maxIter : Int) (fuel : Nat) (ms os : List Bool) : String :=
     let rest := if s.ms.isEmpty then "-" else String.join (s.ms.map b01)
     s!"ret {ev} {rest} {s.os.length}"
 
+/-! printing of the posted model (`post` op) -/
+open FV.GlbOpt in
+def showV : GlbOpt.V → String
+  | .a m c => s!"a:{m}:{c}" | .x m => s!"x:{m}" | .y m => s!"y:{m}" | .d m => s!"d:{m}"
+
+def showT : GlbOpt.T α → String
+  | .num v => s!"n {sc v}" | .var v => s!"v {showV v}" | .lin k v => s!"l {sc k} {showV v}"
+
+def showTs (l : List (GlbOpt.T α)) : String := s!"{l.length}" ++ String.join (l.map fun t => " " ++ showT t)
+
+def showE : GlbOpt.E α → String
+  | .num v => s!"n {sc v}" | .var v => s!"v {showV v}"
+  | .sum l => "S " ++ showTs l
+  | .scaled k l => s!"K {sc k} " ++ showTs l
+  | .diff p q => s!"D {showV p} {showV q}"
+  | .sqdiff p q => s!"Q {showV p} {showV q}"
+
+def showCmp : GlbOpt.Cmp → String | .le => "LE" | .ge => "GE" | .eq => "EQ"
+
+def showRow : GlbOpt.Row α → String
+  | .eqn _ l c r => s!"E {showCmp c} {showE l} ; {showE r}"
+  | .stub k w => s!"stub {k} {w}"
+
+def showOpt : Option α → String | none => "-" | some v => sc v
+
+def showPosted (p : GlbOpt.Posted α) : String :=
+  s!"post {p.vars.length}" ++ String.join (p.vars.map fun (v, lb, ub) => s!" | {showV v} {showOpt lb} {showOpt ub}") ++
+  s!" || {p.consts.length}" ++ String.join (p.consts.map fun (v, x) => s!" | {showV v} {sc x}") ++
+  s!" || {p.rows.length}" ++ String.join (p.rows.map fun r => " | " ++ showRow r)
+
 def glbOp (op : String) (args : List String) : Option String :=
   match op with
+  | "post" =>
+      (runP (do
+        let die ← pRect (α := α); let eps ← pSc; let thr ← pSc
+        let offered ← pList (pOffered (α := α))
+        let mods ← pList (do let m ← pGModule (α := α); let a ← pSc (α := α); pure (m, a))
+        let edges ← pList pNat
+        pure (die, eps, thr, offered, mods, edges)) args).map fun (die, eps, thr, offered, mods, edges) =>
+        let areaOf : String → α := fun n => match (mods.map fun (m, a) => (m.name, a)).lookup n with
+          | some a => a | none => Glb.zero
+        showPosted (GlbOpt.post { die := die, epsD := eps, thr := thr, offered := offered, mods := mods.map (·.1),
+                                  areaOf := areaOf, edgeSizes := edges })
   | "loop" => (runP (do let mi ← pInt; let fuel ← pNat; let ms ← pList pBool; let os ← pList pBool; pure (mi, fuel, ms, os)) args).map
       fun (mi, fuel, ms, os) => loopReplay mi fuel ms os
   | "sum" => (runP (pList (pSc (α := α))) args).map fun xs => sc (pySum xs)
